@@ -3,6 +3,7 @@ import Splipy.Lemmas.C08Merge
 import Splipy.Lemmas.C08Periodicity
 import Splipy.Lemmas.C08Knots
 import Splipy.Lemmas.C08LowerEval
+import Splipy.Lemmas.C08RoundTrip
 import Splipy.Lemmas.EvalRow
 import Mathlib.Data.Rat.Floor
 import Mathlib.Tactic.NormNum
@@ -123,47 +124,88 @@ theorem C08_lower_periodic_curve_partial [FloorRing K] {o : Obj K} {b1 : Basis K
   refine ⟨o', hl, hI.valid, ?_, he⟩
   rw [hI.periodic_eq, hb0, hk]; omega
 
-/-- **Round trip, continuity `k ≤ 1`.**  `cps` is the control net of the curve opened at the seam
-(`n + k + 1` rows along `dir`), `c` the periodic net it came from; opening leaves the rows
-`k … n` untouched (`hOpen`: row `r` is the periodic row `r mod n`).  Then the merge of
-`make_periodic(k)` — weights `[1/2]` for `k = 0`, `[0, 1]` for `k = 1` — returns exactly the periodic
-net.
+/-- **Opening at the seam — the model's `split(start, dir)`** (any continuity `k`; curves,
+surfaces, volumes).  `dir` a valid periodic direction under the guard `n ≥ p + k`, control net with
+`n` rows along `dir`, and the seam separated from its neighbour knots by more than the tolerance
+(`kn k < start - tol`, `start + tol ≤ kn p`: then `continuity(start) = k` exactly and `k + 1` copies
+of `start` are inserted).  `split` returns a single object `op` whose basis along `dir` is
+`openAtSeam` of the periodic basis (`p` copies of `start`, the interior knots, `p` copies of `end`),
+the other bases untouched, `n + k + 1` rows along `dir`, and **rows `k … n` of the opened net are the
+periodic rows `r mod n`** — the hypothesis `hOpen` of the merge lemma, now proved.
+Proof: explicit induction over the `k + 1` insertions of `start` (`Lemmas/C08Open.lean`: knots
+`seamKn`, the insertion matrix keeps row `0` and copies row `r - j` into every row `r ≥ k + j`), then
+`roll(k+1)` / `np.roll(cps, -(k+1))`.
 
-`_partial`: `hOpen` (a consequence of Boehm insertion at the seam for periodic `insert_knot`,
-property C04) is a hypothesis; the statement does not hold for `k ≥ 2`
-(`C08_roundtrip_fails_k2`). -/
-theorem C08_roundtrip_k_le_1_partial [FloorRing K] (cps : Tensor K) (dir n k : ℕ) (hk : k ≤ 1)
+`_partial`: the guard `n ≥ p + k` (known finding below it) and the tolerance separation. -/
+theorem C08_open_at_seam_partial [FloorRing K] (o : Obj K) (dir : ℕ) (hdir : dir < o.bases.size)
+    (hax : dir < o.cps.shape.length) (hv : (o.basis dir).Valid) (k : ℕ)
+    (hk : (o.basis dir).periodic = (k : Int))
+    (hguard : (o.basis dir).order + k ≤ (o.basis dir).numFunctions)
+    (hshape : o.cps.shape.getD dir 0 = (o.basis dir).numFunctions) {tol : K} (htol : 0 < tol)
+    (htolL : (o.basis dir).kn k < (o.basis dir).start - tol)
+    (htolR : (o.basis dir).start + tol ≤ (o.basis dir).kn (o.basis dir).order) :
+    ∃ op, o.split tol [(o.basis dir).start] dir = .ok (.single op) ∧
+      op.basis dir = (o.basis dir).openAtSeam ∧
+      (∀ d, d ≠ dir → op.basis d = o.basis d) ∧ op.rational = o.rational ∧
+      op.cps.shape = o.cps.shape.set dir ((o.basis dir).numFunctions + (k + 1)) ∧
+      (∀ a i, a < C04.outerN o dir → i < C04.innerN o dir → ∀ r, k ≤ r →
+        r ≤ (o.basis dir).numFunctions →
+        C04.fibre op dir a i r = C04.fibre o dir a i (r % (o.basis dir).numFunctions)) := by
+  obtain ⟨op, h1, h2, h3, h4, h5, _, _, _, h9⟩ :=
+    open_at_seam o dir hdir hax hv k hk hguard hshape htol htolL htolR
+  exact ⟨op, h1, h2, h3, h4, h5, h9⟩
+
+/-- **Round trip for continuity `k ≤ 1` — the model's `make_periodic(split(o, start), k)`.**
+Under the hypotheses of `C08_open_at_seam_partial` and `k ≤ 1` the round trip succeeds and returns an
+object with the SAME bases (in particular the same periodic knot vector, `C08_make_periodic_knots`),
+the same `rational` flag, the same control-net shape and the SAME control points, entry by entry; if
+the control-point array of `o` has the length its shape demands, the result IS `o`.
+(`hOpen` of the earlier version is discharged by `C08_open_at_seam_partial`; for `k ≥ 2` the statement
+is false, `C08_roundtrip_fails_k2`.)
+
+`_partial`: guard `n ≥ p + k` and tolerance separation of the seam, as above. -/
+theorem C08_roundtrip_k_le_1_partial [FloorRing K] (o : Obj K) (dir : ℕ) (hdir : dir < o.bases.size)
+    (hax : dir < o.cps.shape.length) (hv : (o.basis dir).Valid) (k : ℕ) (hk1 : k ≤ 1)
+    (hk : (o.basis dir).periodic = (k : Int))
+    (hguard : (o.basis dir).order + k ≤ (o.basis dir).numFunctions)
+    (hshape : o.cps.shape.getD dir 0 = (o.basis dir).numFunctions) {tol : K} (htol : 0 < tol)
+    (htolL : (o.basis dir).kn k < (o.basis dir).start - tol)
+    (htolR : (o.basis dir).start + tol ≤ (o.basis dir).kn (o.basis dir).order) :
+    ∃ o', o.roundTrip tol k dir = .ok o' ∧ o'.bases = o.bases ∧ o'.rational = o.rational ∧
+      o'.cps.shape = o.cps.shape ∧
+      (∀ a r i, a < C04.outerN o dir → r < (o.basis dir).numFunctions → i < C04.innerN o dir →
+        o'.cps.at3 dir a r i = o.cps.at3 dir a r i) ∧
+      (o.cps.data.size = Tensor.prod o.cps.shape → o' = o) := by
+  obtain ⟨o', h1, h2, h3, h4, h5, h6⟩ :=
+    roundTrip_k_le_1 o dir hdir hax hv k hk1 hk hguard hshape htol htolL htolR
+  refine ⟨o', h1, h2, h3, h4, h6, fun hd => ?_⟩
+  have hcps : o'.cps = o.cps := by
+    apply Tensor.ext_at3 o.cps o'.cps dir hax h4 hd h5
+    intro a r i ha hr hi
+    apply h6 a r i ha _ hi
+    have : (Tensor.split3 o.cps.shape dir).2.1 = (o.basis dir).numFunctions := by
+      rw [← hshape]
+      simp only [Tensor.split3, List.getD_eq_getElem?_getD, List.getElem?_eq_getElem hax]
+      rfl
+    rw [← this]; exact hr
+  cases o with
+  | mk ob oc orat =>
+    cases o' with
+    | mk ob' oc' orat' =>
+      simp only at h2 h3 hcps
+      rw [h2, h3, hcps]
+
+/-- The merge step alone: if rows `k … n` of the opened net are the periodic rows (`hOpen`, provided
+by `C08_open_at_seam_partial`), the merge of `make_periodic(k)` with `k ≤ 1` — weights `[1/2]` resp.
+`[0, 1]` — returns exactly the periodic net. -/
+theorem C08_merge_k_le_1 [FloorRing K] (cps : Tensor K) (dir n k : ℕ) (hk : k ≤ 1)
     (hn : 1 ≤ n) (hax : dir < cps.shape.length) (hrows : cps.shape.getD dir 0 = n + k + 1)
     (c : ℕ → ℕ → ℕ → K)
     (hOpen : ∀ a r i, k ≤ r → r ≤ n → cps.at3 dir a r i = c a (r % n) i)
     (a r i : ℕ) (hr : r < n) (hi : i < (Tensor.split3 cps.shape dir).2.2)
     (ha : a < (Tensor.split3 cps.shape dir).1) :
-    (Obj.mergeCps cps dir k).at3 dir a r i = c a r i := by
-  rw [Obj.mergeCps_at3 cps dir k a r i hax (by omega) hi ha, hrows,
-    show n + k + 1 - (k + 1) = n by omega]
-  have hmod : r % n = r := Nat.mod_eq_of_lt hr
-  interval_cases k
-  · -- k = 0: midpoint of two equal rows
-    split_ifs with h
-    · have hr0 : r = 0 := by omega
-      subst hr0
-      rw [Obj.periodicWeight_zero_zero, hOpen a 0 i (le_refl _) (by omega),
-        hOpen a (n + 0) i (by omega) (by omega)]
-      simp only [Nat.add_zero, Nat.mod_self, Nat.zero_mod]
-      ring
-    · rw [hOpen a r i (by omega) (by omega), hmod]
-  · -- k = 1: weights 0 and 1
-    split_ifs with h
-    · rcases Nat.eq_zero_or_pos r with hr0 | hr0
-      · subst hr0
-        rw [Obj.periodicWeight_first 1 (le_refl _), hOpen a (n + 0) i (by omega) (by omega)]
-        simp only [Nat.add_zero, Nat.mod_self]
-        ring
-      · have hr1 : r = 1 := by omega
-        subst hr1
-        rw [Obj.periodicWeight_last 1 (le_refl _), hOpen a 1 i (le_refl _) (by omega), hmod]
-        ring
-    · rw [hOpen a r i (by omega) (by omega), hmod]
+    (Obj.mergeCps cps dir k).at3 dir a r i = c a r i :=
+  Obj.mergeCps_k_le_1 cps dir n k hk hn hax hrows c a r i (fun r' h1 h2 => hOpen a r' i h1 h2) hr hi ha
 
 /-- **Round trip, knot half.**  `b` a valid periodic basis with at least `p - 1` functions,
 `b.openAtSeam` its knot vector opened at the seam (`p` copies of `start`, the interior knots, `p`
@@ -331,3 +373,12 @@ example : C08_exPer.order + 0 ≤ C08_exPer.numFunctions ∧
   constructor
   · decide
   · norm_num [Basis.start, Basis.kn, C08_exPer]
+
+/-- Guard and tolerance separation of `C08_open_at_seam_partial` / `C08_roundtrip_k_le_1_partial`
+hold for the basis of `C08_exK1` (`p = 3`, `k = 1`, `n = 4`, `tol = 10⁻¹⁰`); its round trip is
+evaluated by the kernel in `C08_roundtrip_ok_k1`. -/
+example : (C08_exK1.basis 0).order + 1 ≤ (C08_exK1.basis 0).numFunctions ∧
+    (C08_exK1.basis 0).kn 1 < (C08_exK1.basis 0).start - 1 / 10 ^ 10 ∧
+    (C08_exK1.basis 0).start + 1 / 10 ^ 10 ≤ (C08_exK1.basis 0).kn (C08_exK1.basis 0).order := by
+  refine ⟨by decide, ?_, ?_⟩ <;>
+    norm_num [Obj.basis, C08_exK1, Basis.start, Basis.kn]
